@@ -20,6 +20,10 @@ What the pass does, and how it is modelled:
 * per cycle: changed nets (string comparison of `to_vcd_str`), then `#100c+50`, `0<clk>`, `#100c+100`, `1<clk>`.
 * `to_vcd_str` is `PV.Bits.toVcdStr` (Model/Bits.lean); `parseVcdStr` is the reader's inverse.
 
+* the net table itself (which value nets are dumped, `vcd_clock_net_idx`, the symbol of every `$var` line) is computed by
+  `trimLoop` / `declareAll` / `netTable` (section "the net table" below) from the enumerated value nets, as the trimming loop
+  and `recurse_models` of `make_vcd_func` do it; `NetTab.design` hands the result to `dump` (theorems: `Props/C16n.lean`).
+
 A reader (`replay`) knows only the declarations `(width, symbol)` and the event list; the value of a signal in
 cycle `t` is what its symbol holds after every event stamped ≤ 100·t (value holds until changed).
 
@@ -160,6 +164,117 @@ def parseWav (w : Nat) (s : String) : Option Nat :=
   match s.toList with
   | '0' :: 'b' :: rest => if rest.length = w then parseBinAux 0 rest else none
   | _ => none
+
+/-! ### the net table (`make_vcd_func`: the loop that trims `get_all_value_nets()`, then `recurse_models`)
+
+The pass walks `top.get_all_value_nets()` in the order the DSL hands them out (set iteration order: it differs
+from one elaborated instance to the next) and keeps, of every net, the members that are whole signals
+(`not isinstance(x, Const) and x.is_top_level_signal()`); a net of which nothing is left (only bits / slices /
+struct fields / constants) is skipped and gets **no** position in `trimmed_value_nets`. The clock net is
+recognised by `repr(x) == "s.clk"` and its index is `len(trimmed_value_nets)` *at that moment* — the number of
+nets kept so far, not the position of the net in the input list. Afterwards `recurse_models` walks the component
+tree and declares every top-level signal (`$var` line): a signal found in `signal_net_mapping` gets its net's
+symbol, any other one is appended as a net of its own (that is how `s.clk` of a design without child components
+becomes the clock net). `net_symbol_mapping` grows in lockstep with `trimmed_value_nets` and entry `i` is the
+`i`-th code of the generator, so the symbol of net `i` is `symbol i` throughout (not stored here).
+
+Modelled as the code has it, including the slip `signal_net_mapping[signal] = len(signal_net_mapping)` for an
+appended signal (the number of keys, not the index of the new net): the stored value is never read again
+because every signal is declared once (`declare` would read it for a signal declared twice). -/
+
+/-- a member of a value net, as the trimming loop sees it -/
+inductive Member where
+  | whole (id : Nat)    -- a whole signal (`is_top_level_signal()`), `repr` other than `"s.clk"`
+  | clk                 -- the whole signal with `repr(x) == "s.clk"`
+  | slice (id : Nat)    -- a bit / slice / struct field (of signal `id`): `is_top_level_signal()` is false
+  | const               -- a `Const` object
+deriving DecidableEq, Repr, Inhabited
+
+/-- `not isinstance(x, Const) and x.is_top_level_signal()` -/
+def Member.top : Member → Bool
+  | .whole _ => true
+  | .clk => true
+  | _ => false
+
+/-- the inner `for x in net:` of the trimming loop: `(new_net, vcd_clock_net_idx)`; `nk` is
+    `len(trimmed_value_nets)` while this net is scanned; `none` = `assert vcd_clock_net_idx is None` failed -/
+def trimNet (nk : Nat) : List Member → Option Nat → Option (List Member × Option Nat)
+  | [], c => some ([], c)
+  | x :: xs, c =>
+    if x.top then
+      if x = .clk then
+        match c with
+        | some _ => none
+        | none => (trimNet nk xs (some nk)).map fun r => (x :: r.1, r.2)
+      else (trimNet nk xs c).map fun r => (x :: r.1, r.2)
+    else trimNet nk xs c
+
+/-- `for writer, net in top.get_all_value_nets(): … if new_net: trimmed_value_nets.append( new_net )` -/
+def trimLoop : List (List Member) → List (List Member) → Option Nat → Option (List (List Member) × Option Nat)
+  | [], kept, c => some (kept, c)
+  | net :: rest, kept, c =>
+    match trimNet kept.length net c with
+    | none => none
+    | some (nn, c') => trimLoop rest (if nn = [] then kept else kept ++ [nn]) c'
+
+/-- a Python dict with `Member` keys (insertion order, assignment to an existing key replaces in place) -/
+abbrev Dict := List (Member × Nat)
+
+def dictSet : Dict → Member → Nat → Dict
+  | [], k, v => [(k, v)]
+  | (k', v') :: r, k, v => if k' = k then (k, v) :: r else (k', v') :: dictSet r k v
+
+def dictGet : Dict → Member → Option Nat
+  | [], _ => none
+  | (k', v') :: r, k => if k' = k then some v' else dictGet r k
+
+/-- `for x in trimmed_value_nets[i]: signal_net_mapping[x] = i` -/
+def mapNet (i : Nat) : List Member → Dict → Dict
+  | [], d => d
+  | x :: xs, d => mapNet i xs (dictSet d x i)
+
+/-- `for i in range(len(trimmed_value_nets)): …` (from index `i` on) -/
+def mapNets : Nat → List (List Member) → Dict → Dict
+  | _, [], d => d
+  | i, n :: ns, d => mapNets (i + 1) ns (mapNet i n d)
+
+structure NetTab where
+  nets : List (List Member)     -- `trimmed_value_nets`; net `i` has symbol `symbol i`
+  clk : Option Nat              -- `vcd_clock_net_idx`
+  smap : Dict                   -- `signal_net_mapping`
+  vars : List (Member × Nat)    -- the `$var` lines in file order: signal, `n` with symbol text `symbol n`
+deriving DecidableEq, Repr, Inhabited
+
+/-- the body of `for signal in component_signals[m]:` in `recurse_models`; `none` = the pass raises
+    (`assert vcd_clock_net_idx is None`, or `net_symbol_mapping[net_id]` out of range) -/
+def declare (t : NetTab) (x : Member) : Option NetTab :=
+  match dictGet t.smap x with
+  | some j => if j < t.nets.length then some { t with vars := t.vars ++ [(x, j)] } else none
+  | none =>
+    let c : Option (Option Nat) :=
+      if x = .clk then (match t.clk with | some _ => none | none => some (some t.nets.length)) else some t.clk
+    match c with
+    | none => none
+    | some c => some { nets := t.nets ++ [[x]], clk := c,
+                       smap := dictSet t.smap x t.smap.length,     -- sic: `len(signal_net_mapping)`
+                       vars := t.vars ++ [(x, t.nets.length)] }
+
+/-- `recurse_models( top, '' )`, the component tree flattened into the order of the `$var` lines -/
+def declareAll : NetTab → List Member → Option NetTab
+  | t, [] => some t
+  | t, x :: xs => (declare t x).bind (declareAll · xs)
+
+/-- `make_vcd_func` from the trimming loop up to `$enddefinitions`: `nets` = `get_all_value_nets()` (members
+    tagged), `decl` = every top-level signal of every component in declaration order -/
+def netTable (nets : List (List Member)) (decl : List Member) : Option NetTab :=
+  match trimLoop nets [] none with
+  | none => none
+  | some (kept, c) => declareAll { nets := kept, clk := c, smap := mapNets 0 kept [], vars := [] } decl
+
+/-- the `Design` the dump functions work on: width of net `i` = width of its first member
+    (`trimmed_value_nets[i][0]`); `none` = `net_symbol_mapping[ None ]` raises (no `s.clk` anywhere) -/
+def NetTab.design (w : Member → Nat) (t : NetTab) : Option Design :=
+  t.clk.map fun c => { widths := t.nets.map (fun n => w (n.headD .const)), clk := c, sigs := t.vars.map (·.2) }
 
 /-! ### rendering (driver only) -/
 
